@@ -5,7 +5,7 @@
    SUMMARY (exact statements, hypotheses, findings) at the end of the file. *)
 From H2T Require Import Base Tagged Wrap Sub Css Dom Render Api.
 From H2T Require Import Proofs.Conserve Proofs.RenderWidth Proofs.Footnotes Proofs.RenderConserve.
-From H2T Require Import Proofs.Prune Proofs.FragStream.
+From H2T Require Import Proofs.Prune Proofs.FragStream Proofs.SimRel.
 From Coq Require Import Lia ZifyN ZifyBool ZifyNat.
 
 Local Arguments N.add : simpl never.
@@ -503,7 +503,7 @@ Proof.
   - cbn [pk_of] in H. ok_inv H. constructor.
   - inversion HF as [|? ? Hk Hkids]; subst. cbn [blk_of] in Hg.
     apply andb_true_iff in Hg. destruct Hg as [Hg1 Hg2].
-    cbn [pk_of] in H. bind_inv H r Hr. bind_inv H rs Hrs. ok_inv H.
+    cbn [pk_of] in H. bind_inv H r Hr. bind_inv H rs0 Hrs. ok_inv H.
     change (match k with NElem _ _ _ _ => true | _ => false end) with (is_elem k) in Hrs.
     specialize (IH Hkids _ _ Hg2 Hrs). specialize (Hk _ _ Hg1 Hr).
     destruct r as [x|]; constructor; assumption.
@@ -1639,3 +1639,430 @@ End Routes2.
 Print Assumptions c14_dom_tree.
 Print Assumptions c14_dom_lines.
 Print Assumptions c14_dom_markers.
+
+(* ================================================================== *)
+(* 4. PART 3 (C13) -- whitespace runs in the text nodes of the DOM      *)
+(* ================================================================== *)
+
+(* SimRel.normalise applied to every text node *)
+Fixpoint dnorm (n : node) {struct n} : node :=
+  match n with
+  | NElem html name attrs kids => NElem html name attrs (map dnorm kids)
+  | NText t => NText (normalise t)
+  | NComment => NComment
+  | NOther => NOther
+  end.
+(* two documents that differ only in the whitespace characters / run lengths of text nodes *)
+Definition dom_ws_equiv (doc1 doc2 : list node) : Prop := map dnorm doc1 = map dnorm doc2.
+
+Definition rmap {A B} (f : A -> B) (r : res A) : res B :=
+  match r with Ok a => Ok (f a) | TooNarrow => TooNarrow | Panic s => Panic s | OutOfFuel => OutOfFuel end.
+
+Notation NT := norm_tree.
+
+Lemma norm_loop_idem : forall t g, norm_loop g (norm_loop g t) = norm_loop g t.
+Proof.
+  induction t as [|c t IH]; intros g; [reflexivity|]. cbn [norm_loop].
+  destruct (ws c) eqn:Ec.
+  - destruct g; [apply IH|]. cbn [norm_loop]. change (ws space) with true. cbn iota.
+    rewrite IH. reflexivity.
+  - cbn [norm_loop]. rewrite Ec. rewrite IH. reflexivity.
+Qed.
+Lemma normalise_idem t : normalise (normalise t) = normalise t.
+Proof. apply norm_loop_idem. Qed.
+
+(* trim t is empty exactly when t is all whitespace: normalisation never turns a
+   whitespace-only text into an empty one or vice versa, and that is all that matters *)
+Lemma trim_nil_iff t : (match trim t with [] => true | _ => false end) = all_ws t.
+Proof.
+  destruct (all_ws t) eqn:E.
+  - assert (D : drop_ws t = []).
+    { clear -E. induction t as [|c t IH]; [reflexivity|]. cbn [all_ws forallb] in E.
+      apply andb_true_iff in E. destruct E as [Hc Ht]. cbn [drop_ws]. rewrite Hc. apply IH, Ht. }
+    unfold trim. rewrite D. reflexivity.
+  - destruct (trim t) eqn:Et; [|reflexivity]. rewrite (trim_nil_all_ws _ Et) in E. discriminate.
+Qed.
+
+Lemma shallow_empty_norm x : is_shallow_empty (NT x) = is_shallow_empty x.
+Proof.
+  destruct x as [i st]. unfold is_shallow_empty.
+  destruct i; cbn [norm_tree rn_info]; try reflexivity; try (destruct cs; reflexivity).
+  rewrite !trim_nil_iff. apply all_ws_norm.
+Qed.
+
+Lemma NT_ins b a v : map NT (ins b a v) = ins b (NT a) (map NT v).
+Proof. unfold ins. destruct b; [reflexivity|]. rewrite map_app. reflexivity. Qed.
+
+Lemma insert_child_norm a n b : NT (insert_child a n b) = insert_child (NT a) (NT n) b.
+Proof.
+  destruct n as [i st]. destruct i;
+    try (cbn [insert_child norm_tree]; rewrite ?NT_ins; reflexivity);
+    try (destruct b; reflexivity).
+  - (* ITable *) destruct rows as [|[cells s] rows]; [reflexivity|].
+    destruct cells as [|[k cs s'] cells];
+      cbn [insert_child ins_first_row ins_first_cell norm_tree map]; rewrite ?NT_ins; reflexivity.
+  - (* ITableBody *) destruct rows as [|[cells s] rows]; [reflexivity|].
+    destruct cells as [|[k cs s'] cells];
+      cbn [insert_child ins_first_row ins_first_cell norm_tree map]; rewrite ?NT_ins; reflexivity.
+  - (* ITableRow *) destruct r as [cells s].
+    destruct cells as [|[k cs s'] cells];
+      cbn [insert_child ins_first_cell norm_tree map]; rewrite ?NT_ins; reflexivity.
+  - (* ITableCell *) destruct c as [k cs s]. cbn [insert_child norm_tree]. rewrite NT_ins. reflexivity.
+Qed.
+
+Lemma insert_child_congr a n1 n2 b : NT n1 = NT n2 -> NT (insert_child a n1 b) = NT (insert_child a n2 b).
+Proof. intros H. rewrite !insert_child_norm, H. reflexivity. Qed.
+
+Lemma wrap_pseudo_congr computed n1 n2 : NT n1 = NT n2 -> NT (wrap_pseudo computed n1) = NT (wrap_pseudo computed n2).
+Proof.
+  intros H. unfold wrap_pseudo.
+  assert (E1 : NT match cs_before computed with
+                  | Some c => match ws_val (c_content c) with
+                              | Some t => insert_child (rn_new (IText (relabel L_deco t))) n1 true
+                              | None => n1
+                              end
+                  | None => n1
+                  end =
+               NT match cs_before computed with
+                  | Some c => match ws_val (c_content c) with
+                              | Some t => insert_child (rn_new (IText (relabel L_deco t))) n2 true
+                              | None => n2
+                              end
+                  | None => n2
+                  end).
+  { destruct (cs_before computed) as [c|]; [|exact H].
+    destruct (ws_val (c_content c)); [|exact H]. apply insert_child_congr, H. }
+  destruct (cs_after computed) as [c|]; [|exact E1].
+  destruct (ws_val (c_content c)); [|exact E1]. apply insert_child_congr, E1.
+Qed.
+
+Lemma post_congr computed frag b1 b2 :
+  option_map NT b1 = option_map NT b2 ->
+  option_map NT (post computed frag b1) = option_map NT (post computed frag b2).
+Proof.
+  intros H. unfold post. destruct b1 as [x1|], b2 as [x2|]; try discriminate H; [|reflexivity].
+  cbn [option_map] in H. injection H as H.
+  destruct frag as [f|]; cbn [option_map]; f_equal.
+  - apply insert_child_congr, wrap_pseudo_congr, H.
+  - apply wrap_pseudo_congr, H.
+Qed.
+
+(* ---------- the table constructors look at colspans only ---------- *)
+Lemma norm_row_cells r : map cell_colspan (row_cells (norm_row r)) = map cell_colspan (row_cells r).
+Proof.
+  destruct r as [cells s]. cbn [norm_row row_cells]. rewrite map_map. apply map_ext.
+  intros [k cs st]. reflexivity.
+Qed.
+
+Lemma row_count_norm : forall cells hz n,
+  row_count (map norm_cell cells) hz n = row_count cells hz n.
+Proof.
+  induction cells as [|[k cs s] cells IH]; intros hz n; [reflexivity|]. cbn [map row_count norm_cell cell_colspan].
+  destruct (uadd 30 n (N.max k 1)); cbn [bind]; try reflexivity. apply IH.
+Qed.
+Lemma rows_counts_norm : forall rows, rows_counts (map norm_row rows) = rows_counts rows.
+Proof.
+  induction rows as [|[cells s] rows IH]; [reflexivity|]. cbn [map rows_counts norm_row row_cells].
+  rewrite row_count_norm, IH. reflexivity.
+Qed.
+Lemma fix_zero_norm maxc r cnt :
+  fix_zero_colspan maxc (norm_row r) cnt = norm_row (fix_zero_colspan maxc r cnt).
+Proof.
+  unfold fix_zero_colspan. destruct (fst cnt); [|reflexivity]. destruct r as [cells s].
+  cbn [norm_row]. f_equal. rewrite !map_map. apply map_ext. intros [k cs st]. cbn [norm_cell].
+  destruct (k =? 0); reflexivity.
+Qed.
+Lemma map2_fix_norm maxc : forall rows counts,
+  map2 (fix_zero_colspan maxc) (map norm_row rows) counts =
+  map norm_row (map2 (fix_zero_colspan maxc) rows counts).
+Proof.
+  induction rows as [|r rows IH]; intros counts; [reflexivity|]. destruct counts as [|c counts]; [reflexivity|].
+  cbn [map map2]. rewrite fix_zero_norm, IH. reflexivity.
+Qed.
+Lemma tbody_rows_norm rows :
+  tbody_rows (map norm_row rows) = rmap (map norm_row) (tbody_rows rows).
+Proof.
+  unfold tbody_rows. rewrite rows_counts_norm. destruct (rows_counts rows) as [counts| | |]; try reflexivity.
+  cbn [bind rmap]. rewrite map2_fix_norm. reflexivity.
+Qed.
+
+Lemma row_positions_norm : forall cells col,
+  row_positions (map norm_cell cells) col = row_positions cells col.
+Proof.
+  induction cells as [|[k cs s] cells IH]; intros col; [reflexivity|].
+  cbn [map row_positions norm_cell cell_colspan].
+  destruct (uadd 30 col k); cbn [bind]; try reflexivity. rewrite IH. reflexivity.
+Qed.
+Lemma all_positions_norm : forall rows, all_positions (map norm_row rows) = all_positions rows.
+Proof.
+  induction rows as [|[cells s] rows IH]; [reflexivity|]. cbn [map all_positions norm_row row_cells].
+  rewrite row_positions_norm, IH. reflexivity.
+Qed.
+Lemma remap_cells_norm set : forall cells pos mapped,
+  remap_cells set (map norm_cell cells) pos mapped = rmap (map norm_cell) (remap_cells set cells pos mapped).
+Proof.
+  induction cells as [|[k cs s] cells IH]; intros pos mapped; [reflexivity|].
+  cbn [map remap_cells norm_cell].
+  destruct (uadd 30 pos (N.max k 1)) as [np| | |]; cbn [bind rmap]; try reflexivity.
+  destruct (index_of np set 0) as [nm|]; [|reflexivity].
+  destruct (usub 30 nm mapped) as [c| | |]; cbn [bind rmap]; try reflexivity.
+  rewrite IH. destruct (remap_cells set cells np nm); reflexivity.
+Qed.
+Lemma remap_rows_norm set : forall rows,
+  remap_rows set (map norm_row rows) = rmap (map norm_row) (remap_rows set rows).
+Proof.
+  induction rows as [|[cells s] rows IH]; [reflexivity|]. cbn [map remap_rows norm_row].
+  rewrite remap_cells_norm. destruct (remap_cells set cells 0 0) as [cells'| | |]; cbn [bind rmap]; try reflexivity.
+  rewrite IH. destruct (remap_rows set rows); reflexivity.
+Qed.
+Lemma row_num_cells_norm r : row_num_cells (norm_row r) = row_num_cells r.
+Proof.
+  unfold row_num_cells. f_equal. destruct r as [cells s]. cbn [norm_row row_cells]. rewrite map_map.
+  apply map_ext. intros [k cs st]. reflexivity.
+Qed.
+Lemma render_table_new_norm rows st :
+  rmap (fun t => Some (NT (RN t st))) (render_table_new rows) =
+  rmap (fun t => Some (RN t st)) (render_table_new (map norm_row rows)).
+Proof.
+  unfold render_table_new. rewrite all_positions_norm.
+  destruct (all_positions rows) as [ps| | |]; cbn [bind rmap]; try reflexivity.
+  rewrite remap_rows_norm. destruct (remap_rows (sorted_set (0 :: ps)) rows) as [rows'| | |]; cbn [bind rmap]; try reflexivity.
+  assert (E : maxN (map row_num_cells (map norm_row rows')) = maxN (map row_num_cells rows')).
+  { f_equal. rewrite map_map. apply map_ext. intros r. apply row_num_cells_norm. }
+  rewrite E. reflexivity.
+Qed.
+
+Lemma flat_map_map {A B C} (f : A -> B) (g : B -> list C) l :
+  flat_map g (map f l) = flat_map (fun x => g (f x)) l.
+Proof. induction l as [|a l IH]; [reflexivity|]. cbn [map flat_map]. rewrite IH. reflexivity. Qed.
+Lemma map_flat_map {A B C} (f : A -> list B) (g : B -> C) l :
+  map g (flat_map f l) = flat_map (fun x => map g (f x)) l.
+Proof. induction l as [|a l IH]; [reflexivity|]. cbn [flat_map]. rewrite map_app, IH. reflexivity. Qed.
+
+Lemma filter_info_norm (p : rinfo -> bool) cs :
+  (forall x, p (rn_info (NT x)) = p (rn_info x)) ->
+  filter_info p (map NT cs) = map NT (filter_info p cs).
+Proof.
+  intros H. unfold filter_info. induction cs as [|c cs IH]; [reflexivity|]. cbn [map filter].
+  rewrite H. destruct (p (rn_info c)); cbn [map]; rewrite IH; reflexivity.
+Qed.
+
+Lemma existsb_norm cs :
+  existsb (fun c => negb (is_shallow_empty c)) (map NT cs) =
+  existsb (fun c => negb (is_shallow_empty c)) cs.
+Proof.
+  induction cs as [|c cs IH]; [reflexivity|]. cbn [map existsb]. rewrite shallow_empty_norm, IH. reflexivity.
+Qed.
+
+(* the element constructors commute with the normalisation of the children *)
+Lemma base_of_norm K attrs computed cs :
+  rmap (option_map NT) (base_of K attrs computed cs) = base_of K attrs computed (map NT cs).
+Proof.
+  assert (Hne : forall i i', NT (RN i computed) = RN i' computed ->
+            rmap (option_map NT) (noempty_ computed cs i) = noempty_ computed (map NT cs) i').
+  { intros i i' E. unfold noempty_, mk_. destruct cs as [|c0 cs0]; [reflexivity|].
+    cbn [map rmap option_map]. rewrite E. reflexivity. }
+  destruct K; cbn [base_of]; unfold mk_; try reflexivity; try (apply Hne; reflexivity).
+  - (* KImg *) destruct (img_attrs attrs None None) as [[title|] [src|]]; reflexivity.
+  - (* KA *) destruct (find_attr attrs s_href) as [href|]; [|reflexivity].
+    rewrite existsb_norm. destruct (existsb (fun c => negb (is_shallow_empty c)) cs); reflexivity.
+  - (* KTable *)
+    rewrite flat_map_map.
+    assert (E : flat_map (fun x => match rn_info (NT x) with ITableBody b => b | _ => [] end) cs =
+                map norm_row (flat_map (fun n => match rn_info n with ITableBody b => b | _ => [] end) cs)).
+    { rewrite map_flat_map. apply flat_map_ext. intros [i st]. destruct i; reflexivity. }
+    rewrite E. set (rows := flat_map (fun n => match rn_info n with ITableBody b => b | _ => [] end) cs).
+    destruct rows as [|r0 rows0] eqn:Er; [reflexivity|]. rewrite <- Er.
+    assert (Em : exists r1 rows1, map norm_row rows = r1 :: rows1).
+    { rewrite Er. cbn [map]. eauto. }
+    destruct Em as (r1 & rows1 & Em). rewrite Em, <- Em.
+    pose proof (render_table_new_norm rows computed) as Hn.
+    destruct (render_table_new rows) as [t| | |]; destruct (render_table_new (map norm_row rows)) as [t'| | |];
+      cbn [rmap bind option_map] in *; try discriminate Hn; try reflexivity; exact Hn.
+  - (* KSection *)
+    destruct cs as [|c0 cs0] eqn:Ecs; [reflexivity|]. rewrite <- Ecs.
+    assert (Em : exists c1 cs1, map NT cs = c1 :: cs1) by (rewrite Ecs; cbn [map]; eauto).
+    destruct Em as (c1 & cs1 & Em). rewrite Em, <- Em. clear Em.
+    rewrite flat_map_map.
+    assert (E : flat_map (fun x => match rn_info (NT x) with ITableRow r => [r] | _ => [] end) cs =
+                map norm_row (flat_map (fun n => match rn_info n with ITableRow r => [r] | _ => [] end) cs)).
+    { rewrite map_flat_map. apply flat_map_ext. intros [i st]. destruct i; reflexivity. }
+    rewrite E, tbody_rows_norm.
+    destruct (tbody_rows (flat_map (fun n => match rn_info n with ITableRow r => [r] | _ => [] end) cs));
+      reflexivity.
+  - (* KTr *)
+    rewrite flat_map_map.
+    assert (E : flat_map (fun x => match rn_info (NT x) with ITableCell c => [c] | _ => [] end) cs =
+                map norm_cell (flat_map (fun n => match rn_info n with ITableCell c => [c] | _ => [] end) cs)).
+    { rewrite map_flat_map. apply flat_map_ext. intros [i st]. destruct i; reflexivity. }
+    rewrite E. reflexivity.
+  - (* KOl *)
+    rewrite filter_info_norm by (intros [i st]; destruct i; reflexivity). apply Hne. reflexivity.
+  - (* KDl *)
+    rewrite filter_info_norm by (intros [i st]; destruct i; reflexivity). apply Hne. reflexivity.
+Qed.
+
+Lemma base_of_congr K attrs computed cs1 cs2 :
+  map NT cs1 = map NT cs2 ->
+  rmap (option_map NT) (base_of K attrs computed cs1) = rmap (option_map NT) (base_of K attrs computed cs2).
+Proof. intros H. rewrite !base_of_norm, H. reflexivity. Qed.
+
+(* ---------- the body of `process` and the child loop ---------- *)
+Lemma pbody_congr sd ri html name attrs me rk1 rk2 :
+  rmap (map NT) rk1 = rmap (map NT) rk2 ->
+  rmap (option_map NT) (pbody sd ri html name attrs me rk1) =
+  rmap (option_map NT) (pbody sd ri html name attrs me rk2).
+Proof.
+  intros H. unfold pbody. destruct ri as [inls| | |]; cbn [bind]; try reflexivity.
+  set (computed := computed_style sd me inls).
+  destruct (ws_val (c_display (cs_core computed))); [reflexivity|].
+  fold (frag_name html name attrs).
+  set (b1 := if negb html then _ else _).
+  match goal with |- _ = rmap _ (do base <- ?b; _) => set (b2 := b) end.
+  assert (Eb : rmap (option_map NT) b1 = rmap (option_map NT) b2).
+  { subst b1 b2. destruct html; cbn [negb].
+    - rewrite !html_base_eq. destruct (kind_leaf (kind_of name)); [reflexivity|].
+      destruct rk1 as [cs1| | |], rk2 as [cs2| | |]; cbn [rmap bind] in *; try discriminate H; try reflexivity;
+        [|injection H as H; rewrite H; reflexivity].
+      injection H as H. apply base_of_congr, H.
+    - destruct rk1 as [cs1| | |], rk2 as [cs2| | |]; cbn [rmap bind] in *; try discriminate H; try reflexivity;
+        [|injection H as H; rewrite H; reflexivity].
+      injection H as H.
+      change (rmap (option_map NT) (base_of KOther attrs computed cs1) =
+              rmap (option_map NT) (base_of KOther attrs computed cs2)).
+      apply base_of_congr, H. }
+  destruct b1 as [o1| | |], b2 as [o2| | |]; cbn [rmap bind] in *; try discriminate Eb; try reflexivity;
+    [|injection Eb as Eb; rewrite Eb; reflexivity].
+  injection Eb as Eb.
+  pose proof (post_congr computed (frag_name html name attrs) o1 o2 Eb) as P. unfold post in P.
+  destruct (frag_name html name attrs) as [f|].
+  - destruct o1, o2; cbn [rmap option_map] in *; try discriminate Eb; f_equal; exact P.
+  - cbn [rmap]. f_equal. exact P.
+Qed.
+
+Lemma is_elem_dnorm k : is_elem (dnorm k) = is_elem k.
+Proof. destruct k; reflexivity. Qed.
+
+Lemma pk_congr (proc1 proc2 : node -> Z -> res (option rnode)) : forall kids,
+  Forall (fun k => forall i, rmap (option_map NT) (proc1 k i) = rmap (option_map NT) (proc2 (dnorm k) i)) kids ->
+  forall i, rmap (map NT) (pk_of proc1 kids i) = rmap (map NT) (pk_of proc2 (map dnorm kids) i).
+Proof.
+  induction kids as [|k kids IH]; intros HF i; [reflexivity|].
+  inversion HF as [|? ? Hk Hkids]; subst. cbn [map pk_of].
+  change (match dnorm k with NElem _ _ _ _ => true | _ => false end) with (is_elem (dnorm k)).
+  change (match k with NElem _ _ _ _ => true | _ => false end) with (is_elem k).
+  rewrite is_elem_dnorm. specialize (Hk i). specialize (IH Hkids (if is_elem k then (i + 1)%Z else i)).
+  destruct (proc1 k i) as [r1| | |], (proc2 (dnorm k) i) as [r2| | |]; cbn [rmap bind] in *;
+    try discriminate Hk; try reflexivity; [|injection Hk as Hk; rewrite Hk; reflexivity].
+  injection Hk as Hk.
+  destruct (pk_of proc1 kids _) as [l1| | |], (pk_of proc2 (map dnorm kids) _) as [l2| | |];
+    cbn [rmap bind] in *; try discriminate IH; try reflexivity; [|injection IH as IH; rewrite IH; reflexivity].
+  injection IH as IH. f_equal.
+  destruct r1, r2; cbn [option_map] in Hk; try discriminate Hk; cbn [map]; [|exact IH].
+  injection Hk as Hk. rewrite Hk, IH. reflexivity.
+Qed.
+
+Section Part3.
+  Variable sd : styledata.
+  Variable udc : bool.
+  Variable inl : list (text * text) -> res (list styledecl).
+  Notation process := (process sd udc inl).
+
+  (* `process` on a document and on its whitespace-normalised form: the same outcome (the
+     same failure, or both nothing, or two nodes with the same normal form) *)
+  Lemma process_dnorm : forall n p idx,
+    rmap (option_map NT) (process n p idx) = rmap (option_map NT) (process (dnorm n) p idx).
+  Proof.
+    apply (node_ind' (fun n => forall p idx,
+             rmap (option_map NT) (process n p idx) = rmap (option_map NT) (process (dnorm n) p idx)));
+      try reflexivity.
+    2:{ intros t p idx. cbn [dnorm Dom.process rmap option_map]. unfold rn_new. cbn [norm_tree].
+        rewrite normalise_idem. reflexivity. }
+    intros html name attrs kids IH p idx. cbn [dnorm]. rewrite !process_eq.
+    apply pbody_congr. apply pk_congr. rewrite Forall_forall in *. intros k Hk i. apply IH, Hk.
+  Qed.
+
+  Lemma dom_tree_dnorm doc :
+    rmap NT (dom_to_render_tree sd udc inl doc) = rmap NT (dom_to_render_tree sd udc inl (map dnorm doc)).
+  Proof.
+    unfold dom_to_render_tree. rewrite !process_kids_eq.
+    pose proof (pk_congr (fun k i => process k [] i) (fun k i => process k [] i) doc) as H.
+    specialize (H ltac:(apply Forall_forall; intros k _ i; apply process_dnorm) 1%Z).
+    destruct (pk_of _ doc 1%Z) as [l1| | |], (pk_of _ (map dnorm doc) 1%Z) as [l2| | |];
+      cbn [rmap bind] in *; try discriminate H; try reflexivity; [|injection H as H; rewrite H; reflexivity].
+    injection H as H. unfold rn_new. cbn [norm_tree]. rewrite H. reflexivity.
+  Qed.
+
+  (* PART 3 at a fixed style sheet: the same outcome kind, and ws_equiv trees *)
+  Theorem dom_tree_ws_equiv doc1 doc2 :
+    dom_ws_equiv doc1 doc2 ->
+    rmap NT (dom_to_render_tree sd udc inl doc1) = rmap NT (dom_to_render_tree sd udc inl doc2).
+  Proof. intros E. rewrite (dom_tree_dnorm doc1), (dom_tree_dnorm doc2), E. reflexivity. Qed.
+End Part3.
+
+Section Routes3.
+  Variable inline_styles : list (text * text) -> res (list styledecl).
+  Variable doc_rules : list node -> res (list ruleset).
+
+  (* PART 3 (C13, DOM level).  Hypothesis on the style sheet: the two documents are processed
+     with the same style data - trivially so when document CSS is off (c13_dom_nodoccss); with
+     document CSS the text of <style> elements is CSS source, and its whitespace is not
+     covered here. *)
+  Theorem c13_dom_trees : forall (c : config) (doc1 doc2 : list node),
+    dom_ws_equiv doc1 doc2 ->
+    effective_sd doc_rules c doc1 = effective_sd doc_rules c doc2 ->
+    rmap norm_tree (to_render_tree inline_styles doc_rules c doc1) =
+    rmap norm_tree (to_render_tree inline_styles doc_rules c doc2).
+  Proof.
+    intros c doc1 doc2 E Hsd. unfold to_render_tree. rewrite Hsd.
+    destruct (effective_sd doc_rules c doc2) as [sd| | |]; try reflexivity. cbn [bind].
+    apply dom_tree_ws_equiv, E.
+  Qed.
+
+  Corollary c13_dom_ws_equiv : forall (c : config) (doc1 doc2 : list node) (t1 t2 : rnode),
+    dom_ws_equiv doc1 doc2 ->
+    effective_sd doc_rules c doc1 = effective_sd doc_rules c doc2 ->
+    to_render_tree inline_styles doc_rules c doc1 = Ok t1 ->
+    to_render_tree inline_styles doc_rules c doc2 = Ok t2 ->
+    ws_equiv t1 t2.
+  Proof.
+    intros c doc1 doc2 t1 t2 E Hsd H1 H2. pose proof (c13_dom_trees c doc1 doc2 E Hsd) as H.
+    rewrite H1, H2 in H. cbn [rmap] in H. injection H as H. exact H.
+  Qed.
+
+  (* SimRel's side condition, on the tree the DOM layer builds (decidable) *)
+  Definition doc_tree_ok (c : config) (doc : list node) : bool :=
+    match to_render_tree inline_styles doc_rules c doc with Ok t => tree_ok t | _ => true end.
+
+  (* ... hence identical renderings, whatever the outcome *)
+  Theorem c13_dom_string : forall (c : config) (doc1 doc2 : list node) (w : N),
+    dom_ws_equiv doc1 doc2 ->
+    effective_sd doc_rules c doc1 = effective_sd doc_rules c doc2 ->
+    doc_tree_ok c doc1 = true -> doc_tree_ok c doc2 = true ->
+    string_from_read inline_styles doc_rules c doc1 w = string_from_read inline_styles doc_rules c doc2 w /\
+    lines_from_read inline_styles doc_rules c doc1 w = lines_from_read inline_styles doc_rules c doc2 w.
+  Proof.
+    intros c doc1 doc2 w E Hsd O1 O2. pose proof (c13_dom_trees c doc1 doc2 E Hsd) as H.
+    unfold doc_tree_ok in O1, O2. unfold string_from_read, lines_from_read.
+    destruct (to_render_tree inline_styles doc_rules c doc1) as [t1| | |],
+             (to_render_tree inline_styles doc_rules c doc2) as [t2| | |];
+      cbn [rmap bind] in *; try discriminate H; try (split; reflexivity);
+      [|injection H as H; rewrite H; split; reflexivity].
+    injection H as H. rewrite (c13_render_with_context c t1 t2 w H O1 O2). split; reflexivity.
+  Qed.
+
+  Corollary c13_dom_nodoccss : forall (c : config) (doc1 doc2 : list node) (w : N),
+    c_use_doc_css c = false ->
+    dom_ws_equiv doc1 doc2 ->
+    doc_tree_ok c doc1 = true -> doc_tree_ok c doc2 = true ->
+    string_from_read inline_styles doc_rules c doc1 w = string_from_read inline_styles doc_rules c doc2 w /\
+    lines_from_read inline_styles doc_rules c doc1 w = lines_from_read inline_styles doc_rules c doc2 w.
+  Proof.
+    intros c doc1 doc2 w Hu E O1 O2. apply c13_dom_string; try assumption.
+    unfold effective_sd. rewrite Hu. reflexivity.
+  Qed.
+End Routes3.
+Print Assumptions c13_dom_trees.
+Print Assumptions c13_dom_ws_equiv.
+Print Assumptions c13_dom_string.
+Print Assumptions c13_dom_nodoccss.
